@@ -1,11 +1,11 @@
 package main
 
 import (
-	"strings"
-	"time"
-	"runtime"
 	"errors"
 	"fmt"
+	"runtime"
+	"strings"
+	"time"
 
 	"verif/rt"
 
@@ -145,7 +145,6 @@ func randomHistories(c *rt.Ctx, steps []func(w *rt.W), n, length int) {
 	})
 	c.Require("random-call-history", int64(n))
 }
-
 
 // callMustReturn runs f (a call into the library that is a few microseconds of CPU) on its own goroutine. If it has not
 // returned after 15 s, the goroutine's stack is looked at twice, 5 s apart: parked on a lock, channel or semaphore with
